@@ -578,8 +578,9 @@ impl<const B: Word> Repr<B> {
         debug_assert!(self.significand.bit_len() <= 24);
 
         let sign = self.sign();
+        let top_bit = self.exponent + self.significand.bit_len() as isize;
         let man24: i32 = self.significand.try_into().unwrap();
-        if self.exponent >= 128 {
+        if top_bit > 128 {
             // max f32 = 2^128 * (1 - 2^-24)
             match sign {
                 Sign::Positive => Inexact(f32::INFINITY, Rounding::AddOne),
@@ -636,8 +637,9 @@ impl<const B: Word> Repr<B> {
         debug_assert!(self.significand.bit_len() <= 53);
 
         let sign = self.sign();
+        let top_bit = self.exponent + self.significand.bit_len() as isize;
         let man53: i64 = self.significand.try_into().unwrap();
-        if self.exponent >= 1024 {
+        if top_bit > 1024 {
             // max f64 = 2^1024 × (1 − 2^−53)
             match sign {
                 Sign::Positive => Inexact(f64::INFINITY, Rounding::AddOne),
